@@ -128,7 +128,7 @@ def calls_for(pid, seed=0):
         add("formrbe3", n2p.formrbe3, [uset, 300, 123456, [123456, [100, 200]]])
         add("replace_basic_cs", lambda u, cs: n2p.replace_basic_cs(u, cs), [uset, np.array([[50, 1, 0], [10.0, 10, 10], [10.0, 10, 11], [11.0, 10, 10]])])
         add("rbmove", n2p.rbmove, [n2p.rbgeom_uset(uset), np.zeros(3), np.array([1.0, 2.0, 3.0])])
-        add("rbcoords", n2p.rbcoords, [n2p.rbgeom_uset(uset)], {"verbose": 0})
+        add("rbcoords", n2p.rbcoords, [n2p.rbgeom_uset(uset)], {"verbose": 0}, True)      # least-squares residues at round-off level
     if pid in ("C06", "C15"):
         from pyyeti import cb
         nb, nq = 6, 4
@@ -209,6 +209,8 @@ def calls_for(pid, seed=0):
         from pyyeti import stats
         add("ksingle", stats.ksingle, [np.array([0.9, 0.99]), 0.9, np.array([[5], [50]])])
         add("kdouble", stats.kdouble, [0.95, np.array([0.5, 0.9]), 21])
+        add("kdouble(coarse tol)", stats.kdouble, [0.9, 0.9, 7], {"tol": 0.05})      # the same p, n with another option BEFORE the default call
+        add("kdouble(scalar)", stats.kdouble, [0.9, 0.9, 7])
         add("order_stats(r)", lambda **k: stats.order_stats("r", **k), [], {"p": np.array([0.9, 0.99]), "c": 0.9, "n": 700})
         add("order_stats(n)", lambda **k: stats.order_stats("n", **k), [], {"p": 0.99, "c": 0.9, "r": np.array([1, 4])})
     return out
